@@ -20,3 +20,64 @@ M("C14", "unsign-error-not-102", "ledger/protocol.py",
 M("C14", "relay-client-tx", "ledger/protocol.py",
   "                    btc_tx=unsigned_btc_tx,",
   "                    btc_tx=msg[\"tx\"],")
+
+# ---- C01
+M("C01", "payload-len-includes-extradata", "ledger/hsm2dongle.py",
+  "                EXTRADATALENGTH_LENGTH + \\\n                len(btc_tx_bytes)\n",
+  "                EXTRADATALENGTH_LENGTH + \\\n                len(btc_tx_bytes) + len(ed_bytes)\n")
+M("C01", "input-index-big-endian", "ledger/hsm2dongle.py",
+  'input_index_bytes = input_index.to_bytes(4, byteorder="little", signed=False)',
+  'input_index_bytes = input_index.to_bytes(4, byteorder="big", signed=False)')
+M("C01", "cap-chunk-at-80", "ledger/hsm2dongle.py",
+  "            to_send = data[offset:offset + bytes_requested]\n",
+  "            to_send = data[offset:offset + min(bytes_requested, 80)]\n")
+M("C01", "drop-last-proof-node", "ledger/hsm2dongle.py",
+  "            for node in receipt_merkle_proof:\n",
+  "            for node in (receipt_merkle_proof[:-1] if len(receipt_merkle_proof) > 4 else receipt_merkle_proof):\n")
+M("C01", "tx-not-full-data", "ledger/hsm2dongle.py",
+  "                data=data,\n                expect_full_data=True,\n                initial_bytes=bytes_requested,\n                operation_name=\"sign\",\n                data_description=\"BTC tx\",",
+  "                data=data,\n                expect_full_data=False,\n                initial_bytes=bytes_requested,\n                operation_name=\"sign\",\n                data_description=\"BTC tx\",")
+M("C01", "r-s-swapped", "ledger/protocol.py",
+  'return (self.ERROR_CODE_OK, {"signature": {"r": signature.r, "s": signature.s}})',
+  'return (self.ERROR_CODE_OK, {"signature": {"r": signature.s, "s": signature.r}})')
+M("C01", "outpoint-value-4-bytes-wrap", "ledger/hsm2dongle.py",
+  "                ov_bytes = outpoint_value.to_bytes(\n                    OUTPOINT_VALUE_LENGTH,\n                    byteorder='little', signed=False\n                )",
+  "                ov_bytes = (outpoint_value & 0x7fffffffffffffff).to_bytes(\n                    OUTPOINT_VALUE_LENGTH,\n                    byteorder='little', signed=False\n                )")
+M("C01", "varint-ws-len-one-byte", "ledger/hsm2dongle.py",
+  "                ws_length_bytes = bytes.fromhex(encode_varint(len(ws_bytes)))",
+  "                ws_length_bytes = bytes([len(ws_bytes) & 0xff]) if len(ws_bytes) < 256 else bytes.fromhex(encode_varint(len(ws_bytes)))")
+M("C01", "v1-sig-s-stripped", "ledger/signature.py",
+  "        self._s = sbytes.hex()",
+  "        self._s = sbytes.lstrip(b'\\x00').hex()")
+M("C01", "path-big-endian-hardened-bit", "comm/bip32.py",
+  '            binary += struct.pack(f"{order_sign}I", element.index)',
+  '            binary += struct.pack(f"{order_sign}I", element.index if element.spec_index < 100 else element.spec_index)')
+
+# ---- C13
+M("C13", "swap-hash-ids", "ledger/hsm2dongle.py",
+  '        "ancestor_block": 0x03,\n        "ancestor_receipts_root": 0x05,',
+  '        "ancestor_block": 0x05,\n        "ancestor_receipts_root": 0x03,')
+M("C13", "difficulty-little-endian", "ledger/hsm2dongle.py",
+  '            result[self.OFF.DATA:], byteorder="big", signed=False\n        )\n\n        # Get flags',
+  '            result[self.OFF.DATA:], byteorder="little", signed=False\n        )\n\n        # Get flags')
+M("C13", "flag-offsets-permuted", "ledger/hsm2dongle.py",
+  "    ALREADY_VALIDATED = 1\n    FOUND_BEST_BLOCK = 2",
+  "    ALREADY_VALIDATED = 2\n    FOUND_BEST_BLOCK = 1")
+M("C13", "tweak-message-swapped", "ledger/hsm2dongle_cmds/signer_heartbeat.py",
+  '                "message": message.hex(),\n                "signature": HSM2DongleSignature(signature),\n                "tweak": signer_hash.hex(),',
+  '                "message": signer_hash.hex(),\n                "signature": HSM2DongleSignature(signature),\n                "tweak": message.hex(),')
+M("C13", "network-not-lowercased", "ledger/protocol.py",
+  '"network": params.network.name.lower()}',
+  '"network": params.network.name}')
+M("C13", "min-difficulty-35-bytes", "ledger/parameters.py",
+  'mrd = int.from_bytes(param_bytes[32:68], byteorder="big", signed=False)',
+  'mrd = int.from_bytes(param_bytes[33:68], byteorder="big", signed=False)')
+M("C13", "uihb-no-check-back-in-signer", "ledger/protocol.py",
+  '                if new_mode != self.hsm2dongle.MODE.SIGNER:\n                    self.logger.error("Expected dongle to be in Signer"',
+  '                if new_mode == self.hsm2dongle.MODE.BOOTLOADER:\n                    self.logger.error("Expected dongle to be in Signer"')
+M("C13", "state-best-block-from-updating", "ledger/protocol.py",
+  '            "best_block": state["best_block"],\n            "newest_valid_block": state["newest_valid_block"],',
+  '            "best_block": state["updating.best_block"],\n            "newest_valid_block": state["newest_valid_block"],')
+M("C13", "uihb-pubkey-from-signer-path", "ledger/hsm2dongle_cmds/ui_heartbeat.py",
+  '                "tweak": ui_hash.hex(),',
+  '                "tweak": ui_hash.hex()[:64],')
